@@ -238,6 +238,7 @@ void   mon_reset(void);                  /* clears logs, installs callbacks */
 void   mon_enable(int events, uint64_t pert_seed, int pert_mode, int pert_level, int nprocs);
 void   mon_disable(void);
 long   mon_check_work(const ev_t *ev, size_t nev, const void *ws, long lw, const char *key);
+long   mon_check_work_vs(const ev_t *ev, size_t nev, const void *const *ptrs, const size_t *lens, const char *const *names, int cnt, const char *key);
 void   mon_watch_start(void);     /* persistent deadlock-watch thread (counted in hx_extra_threads) */
 extern int hx_extra_threads; extern long hx_cur_case_id;
 size_t mon_collect(ev_t **out);          /* merged + sorted by seq; caller frees */
